@@ -2,6 +2,7 @@
    unescape and parseParams never panic; the Pratt parser with fuel [parse_fuel src] (linear in
    the length) never panics and never runs out of fuel; parse errors are well-formed; optimize
    removes every interim node.  Headline: [parse_total] (property C08 at the model level).
+   Last part: the wire format of Model/AstWire.v round-trips ([node_of_wire_to_wire]).
 
    Termination measure: remaining bytes of the lexer plus one if the current token is not EOF;
    [advance] from a non-EOF token strictly decreases it (LexerProofs.next_spec), every
@@ -352,7 +353,6 @@ Lemma advance_spec allowRegex p : pinv p ->
 Proof.
   intros (Hl & Hi & He & Ht & Hne). unfold advance.
   pose proof (next_spec (lex_fuel (plexer p)) allowRegex (plexer p) Hl (lex_fuel_ok _ Hl)) as H.
-  unfold lspec in H.
   destruct (next (lex_fuel (plexer p)) allowRegex (plexer p)) as [[t l']| | |]; try contradiction.
   destruct H as ((Pi & Pl & Pc & Pp & Pe & Pn & Pb) & Hprog).
   assert (HL : llength (plexer p) = len) by (unfold llength, len; now rewrite Hi).
@@ -1400,3 +1400,676 @@ Print Assumptions parse_total.
 Print Assumptions parse_error_wf.
 Print Assumptions optimize_no_interim.
 Print Assumptions parse_no_interim.
+
+(* ================================================================ wire format round trip *)
+
+(* ---- hex strings ---- *)
+Lemma hex_byte_rt (c : ascii) :
+  hex_val (hex_digit (byte_of c / 16)) = Some (byte_of c / 16) /\
+  hex_val (hex_digit (byte_of c mod 16)) = Some (byte_of c mod 16) /\
+  ascii_of_Z (16 * (byte_of c / 16) + byte_of c mod 16) = c.
+Proof. destruct c as [[] [] [] [] [] [] [] []]; vm_compute; auto. Qed.
+
+Lemma string_of_hex_rt s : string_of_hex (hex_of_string s) = Some s.
+Proof.
+  induction s as [|c r IH]; [reflexivity|].
+  cbn [hex_of_string string_of_hex].
+  destruct (hex_byte_rt c) as (H1 & H2 & H3). rewrite H1, H2, IH, H3. reflexivity.
+Qed.
+
+Lemma rS_wS s : rS (wS s) = Some s.
+Proof. unfold rS, wS. apply string_of_hex_rt. Qed.
+
+Lemma rB_wB b : rB (wB b) = Some b.
+Proof. destruct b; reflexivity. Qed.
+
+(* ---- decimal numerals ---- *)
+Definition is_digit_char (c : ascii) : Prop := 48 <= byte_of c <= 57.
+
+Lemma digit_char d : 0 <= d <= 9 ->
+  byte_of (ascii_of_Z (48 + d)) = 48 + d.
+Proof.
+  intros H. assert (Hc : d = 0 \/ d = 1 \/ d = 2 \/ d = 3 \/ d = 4 \/ d = 5 \/ d = 6 \/ d = 7 \/ d = 8 \/ d = 9) by lia.
+  repeat (destruct Hc as [->|Hc]; [reflexivity|]). subst; reflexivity.
+Qed.
+
+Lemma dec_digits_value fuel : forall z acc, 0 <= z < 10 ^ Z.of_nat fuel ->
+  exists k, 0 <= k /\ forall a, Z_of_dec_acc (dec_digits fuel z acc) a = Z_of_dec_acc acc (a * 10 ^ k + z).
+Proof.
+  induction fuel as [|f IH]; intros z acc Hz.
+  - simpl in Hz. exists 0. split; [lia|]. intros a. simpl. f_equal. lia.
+  - cbn [dec_digits].
+    assert (Hm : 0 <= z mod 10 <= 9) by (pose proof (Z.mod_pos_bound z 10); lia).
+    destruct (z <? 10) eqn:E.
+    + exists 1. split; [lia|]. intros a. cbn [Z_of_dec_acc].
+      rewrite digit_char by lia.
+      replace ((48 <=? 48 + z mod 10) && (48 + z mod 10 <=? 57)) with true by lia.
+      f_equal. rewrite Z.mod_small by lia. lia.
+    + assert (Hq : 0 <= z / 10 < 10 ^ Z.of_nat f).
+      { split; [apply Z.div_pos; lia|]. apply Z.div_lt_upper_bound; [lia|].
+        rewrite Nat2Z.inj_succ, Z.pow_succ_r in Hz by lia. lia. }
+      destruct (IH (z / 10) (String (ascii_of_Z (48 + z mod 10)) acc) Hq) as (k & Hk & Hv).
+      exists (k + 1). split; [lia|]. intros a. rewrite Hv. cbn [Z_of_dec_acc].
+      rewrite digit_char by lia.
+      replace ((48 <=? 48 + z mod 10) && (48 + z mod 10 <=? 57)) with true by lia.
+      f_equal. rewrite Z.pow_add_r by lia. pose proof (Z.div_mod z 10). lia.
+Qed.
+
+Lemma dec_digits_head fuel z acc : 0 <= z ->
+  exists c r, dec_digits (S fuel) z acc = String c r /\ is_digit_char c.
+Proof.
+  revert z acc. induction fuel as [|f IH]; intros z acc Hz.
+  - cbn [dec_digits].
+    assert (Hm : 0 <= z mod 10 <= 9) by (pose proof (Z.mod_pos_bound z 10); lia).
+    destruct (z <? 10); eexists _, _; (split; [reflexivity|]); unfold is_digit_char; rewrite digit_char; lia.
+  - remember (S f) as f'. cbn [dec_digits].
+    assert (Hm : 0 <= z mod 10 <= 9) by (pose proof (Z.mod_pos_bound z 10); lia).
+    destruct (z <? 10).
+    + eexists _, _; (split; [reflexivity|]); unfold is_digit_char; rewrite digit_char; lia.
+    + subst f'. apply IH. apply Z.div_pos; lia.
+Qed.
+
+Lemma pow10_log2 z : 0 <= z -> z < 10 ^ Z.of_nat (S (Z.to_nat (Z.log2 z))).
+Proof.
+  intros Hz. rewrite Nat2Z.inj_succ, Z2Nat.id by apply Z.log2_nonneg.
+  destruct (Z.eq_dec z 0) as [->|Hne]; [simpl; lia|].
+  pose proof (Z.log2_spec z ltac:(lia)) as [_ H2].
+  assert (2 ^ Z.succ (Z.log2 z) <= 10 ^ Z.succ (Z.log2 z)).
+  { apply Z.pow_le_mono_l. lia. }
+  lia.
+Qed.
+
+Lemma Z_of_dec_string_of_Z z : 0 <= z -> Z_of_dec (string_of_Z z) = Some z.
+Proof.
+  intros Hz. unfold string_of_Z. replace (z <? 0) with false by lia.
+  destruct (dec_digits_head (Z.to_nat (Z.log2 z)) z "" Hz) as (c & r & Hd & Hc).
+  destruct (dec_digits_value (S (Z.to_nat (Z.log2 z))) z "") as (k & Hk & Hv).
+  { split; [exact Hz|apply pow10_log2; exact Hz]. }
+  unfold Z_of_dec. rewrite Hd.
+  transitivity (Z_of_dec_acc (dec_digits (S (Z.to_nat (Z.log2 z))) z "") 0).
+  - rewrite Hd. destruct c as [[] [] [] [] [] [] [] []]; try reflexivity.
+    unfold is_digit_char, byte_of in Hc. simpl in Hc. lia.
+  - rewrite Hv. simpl. f_equal.
+Qed.
+
+Lemma rL_wL n avail : (n <= avail)%nat -> rL (wL n) avail = Some n.
+Proof.
+  intros H. unfold rL, wL, string_of_nat. rewrite Z_of_dec_string_of_Z by lia.
+  replace ((0 <=? Z.of_nat n) && (Z.of_nat n <=? Z.of_nat avail)) with true by lia.
+  f_equal. lia.
+Qed.
+
+(* ---- tokens contain no space; splitting a joined token list gives the list back ---- *)
+Fixpoint nospb (s : string) : bool :=
+  match s with EmptyString => true | String c r => negb (Ascii.eqb c " ") && nospb r end.
+
+Lemma nospb_app a b : nospb (a ++ b) = nospb a && nospb b.
+Proof. induction a as [|c r IH]; simpl; [reflexivity|]. rewrite IH. apply andb_assoc. Qed.
+
+Lemma hex_digit_nosp d : 0 <= d < 16 -> Ascii.eqb (hex_digit d) " " = false.
+Proof.
+  intros H.
+  assert (Hc : d = 0 \/ d = 1 \/ d = 2 \/ d = 3 \/ d = 4 \/ d = 5 \/ d = 6 \/ d = 7 \/ d = 8 \/ d = 9
+               \/ d = 10 \/ d = 11 \/ d = 12 \/ d = 13 \/ d = 14 \/ d = 15) by lia.
+  repeat (destruct Hc as [->|Hc]; [reflexivity|]). subst; reflexivity.
+Qed.
+
+Lemma byte_of_range c : 0 <= byte_of c < 256.
+Proof. destruct c as [[] [] [] [] [] [] [] []]; vm_compute; split; congruence. Qed.
+
+Lemma nospb_hex s : nospb (hex_of_string s) = true.
+Proof.
+  induction s as [|c r IH]; [reflexivity|]. cbn [hex_of_string nospb].
+  pose proof (byte_of_range c) as Hb.
+  rewrite !hex_digit_nosp, IH; [reflexivity| |].
+  - apply Z.mod_pos_bound; lia.
+  - split; [apply Z.div_pos; lia|apply Z.div_lt_upper_bound; lia].
+Qed.
+
+Lemma nospb_hex_digits n : forall z acc, nospb acc = true -> nospb (hex_of_Z_digits n z acc) = true.
+Proof.
+  induction n as [|n IH]; intros z acc Ha; [exact Ha|]. cbn [hex_of_Z_digits].
+  apply IH. cbn [nospb]. rewrite hex_digit_nosp, Ha; [reflexivity|apply Z.mod_pos_bound; lia].
+Qed.
+
+Lemma digit_nosp d : 0 <= d <= 9 -> Ascii.eqb (ascii_of_Z (48 + d)) " " = false.
+Proof.
+  intros H. assert (Hc : d = 0 \/ d = 1 \/ d = 2 \/ d = 3 \/ d = 4 \/ d = 5 \/ d = 6 \/ d = 7 \/ d = 8 \/ d = 9) by lia.
+  repeat (destruct Hc as [->|Hc]; [reflexivity|]). subst; reflexivity.
+Qed.
+
+Lemma nospb_dec_digits fuel : forall z acc, 0 <= z -> nospb acc = true -> nospb (dec_digits fuel z acc) = true.
+Proof.
+  induction fuel as [|f IH]; intros z acc Hz Ha; [exact Ha|]. cbn [dec_digits].
+  assert (Hm : 0 <= z mod 10 <= 9) by (pose proof (Z.mod_pos_bound z 10); lia).
+  assert (Hs : nospb (String (ascii_of_Z (48 + z mod 10)) acc) = true).
+  { cbn [nospb]. rewrite digit_nosp, Ha by lia. reflexivity. }
+  destruct (z <? 10); [exact Hs|]. apply IH; [apply Z.div_pos; lia|exact Hs].
+Qed.
+
+Lemma nospb_string_of_Z z : 0 <= z -> nospb (string_of_Z z) = true.
+Proof.
+  intros Hz. unfold string_of_Z. replace (z <? 0) with false by lia.
+  apply nospb_dec_digits; auto.
+Qed.
+
+Lemma nospb_wS s : nospb (wS s) = true. Proof. unfold wS. cbn [nospb]. rewrite nospb_hex. reflexivity. Qed.
+Lemma nospb_wB b : nospb (wB b) = true. Proof. destruct b; reflexivity. Qed.
+Lemma nospb_wL n : nospb (wL n) = true.
+Proof. unfold wL, string_of_nat. cbn [nospb]. rewrite nospb_string_of_Z by lia. reflexivity. Qed.
+Lemma nospb_wD x : nospb (wD x) = true.
+Proof. unfold wD, hex16_of_Z. cbn [nospb]. rewrite nospb_hex_digits; reflexivity. Qed.
+
+Lemma srev_acc_app s : forall a, srev_acc s a = srev_acc s "" ++ a.
+Proof.
+  induction s as [|c r IH]; intros a; simpl; [reflexivity|].
+  rewrite IH, (IH (String c "")). rewrite sapp_assoc. reflexivity.
+Qed.
+Lemma srev_acc_invol s : forall a b, srev_acc (srev_acc s a) b = srev_acc a (s ++ b).
+Proof.
+  induction s as [|c r IH]; intros a b; simpl; [reflexivity|]. rewrite IH. reflexivity.
+Qed.
+Lemma srev_invol s : srev (srev s) = s.
+Proof. unfold srev. rewrite srev_acc_invol. simpl. apply sapp_nil_r. Qed.
+
+Lemma split_acc_token t : nospb t = true -> forall s cur,
+  ssplit_char_acc " " (t ++ s) cur = ssplit_char_acc " " s (srev_acc t cur).
+Proof.
+  induction t as [|c r IH]; intros Ht s cur; [reflexivity|].
+  cbn [nospb] in Ht. apply andb_true_iff in Ht as [Hc Hr]. apply negb_true_iff in Hc.
+  cbn [append ssplit_char_acc]. rewrite Hc. rewrite IH by exact Hr. reflexivity.
+Qed.
+
+Lemma ssplit_sjoin ts : ts <> [] -> forallb nospb ts = true ->
+  ssplit_char " " (sjoin " " ts) = ts.
+Proof.
+  unfold ssplit_char.
+  assert (H : forall ts cur, ts <> [] -> forallb nospb ts = true ->
+            ssplit_char_acc " " (sjoin " " ts) (srev cur) = (cur ++ hd "" ts) :: tl ts).
+  { induction ts0 as [|t r IH]; intros cur Hne Hall; [contradiction|].
+    cbn [forallb] in Hall. apply andb_true_iff in Hall as [Ht Hr].
+    destruct r as [|t2 r2].
+    - cbn [sjoin hd tl]. rewrite <- (sapp_nil_r t) at 1. rewrite split_acc_token by exact Ht.
+      cbn [ssplit_char_acc]. f_equal. unfold srev. rewrite srev_acc_invol. simpl.
+      rewrite srev_acc_invol. simpl. rewrite sapp_nil_r. reflexivity.
+    - change (sjoin " " (t :: t2 :: r2)) with (t ++ " " ++ sjoin " " (t2 :: r2)).
+      rewrite split_acc_token by exact Ht.
+      change (" " ++ sjoin " " (t2 :: r2)) with (String " " (sjoin " " (t2 :: r2))).
+      cbn [ssplit_char_acc]. rewrite Ascii.eqb_refl. cbn [hd tl].
+      f_equal.
+      + unfold srev. rewrite srev_acc_invol. simpl. rewrite srev_acc_invol. simpl.
+        rewrite sapp_nil_r. reflexivity.
+      + specialize (IH "" ltac:(discriminate) Hr). unfold srev in IH at 1. simpl in IH. exact IH. }
+  intros Hne Hall. specialize (H ts "" Hne Hall). unfold srev in H at 1. simpl in H.
+  rewrite H. destruct ts; [contradiction|reflexivity].
+Qed.
+
+(* ---- the local fixpoints of node_tokens / node_size as list functions ---- *)
+Definition toks (l : list node) : list string := List.concat (map node_tokens l).
+Definition ptoks (l : list (node * node)) : list string :=
+  List.concat (map (fun kv => node_tokens (fst kv) ++ node_tokens (snd kv))%list l).
+Definition ttoks (l : list (sortdir * node)) : list string :=
+  List.concat (map (fun de => wdir (fst de) :: node_tokens (snd de)) l).
+
+Lemma toks_fix l :
+  (fix toks (l : list node) : list string :=
+     match l with [] => [] | x :: r => (node_tokens x ++ toks r)%list end) l = toks l.
+Proof. unfold toks. induction l as [|x r IH]; simpl; [reflexivity|]. now rewrite IH. Qed.
+Lemma ptoks_fix l :
+  (fix ptoks (l : list (node * node)) : list string :=
+     match l with [] => [] | (k, v) :: r => (node_tokens k ++ node_tokens v ++ ptoks r)%list end) l
+  = ptoks l.
+Proof.
+  unfold ptoks. induction l as [|[k v] r IH]; simpl; [reflexivity|]. rewrite IH.
+  now rewrite <- app_assoc.
+Qed.
+Lemma ttoks_fix l :
+  (fix ttoks (l : list (sortdir * node)) : list string :=
+     match l with [] => [] | (d, e) :: r => (wdir d :: node_tokens e ++ ttoks r)%list end) l
+  = ttoks l.
+Proof. unfold ttoks. induction l as [|[d e] r IH]; simpl; [reflexivity|]. now rewrite IH. Qed.
+
+Definition sizes (l : list node) : nat := list_sum (map node_size l).
+Definition psizes (l : list (node * node)) : nat :=
+  list_sum (map (fun kv => node_size (fst kv) + node_size (snd kv))%nat l).
+Definition tsizes (l : list (sortdir * node)) : nat := list_sum (map (fun de => node_size (snd de)) l).
+
+Lemma sizes_fix l :
+  (fix sizes (l : list node) : nat :=
+     match l with [] => 0 | x :: r => node_size x + sizes r end)%nat l = sizes l.
+Proof. unfold sizes. induction l as [|x r IH]; simpl; [reflexivity|]. now rewrite IH. Qed.
+Lemma psizes_fix l :
+  (fix psizes (l : list (node * node)) : nat :=
+     match l with [] => 0 | (a, b) :: r => node_size a + node_size b + psizes r end)%nat l = psizes l.
+Proof. unfold psizes. induction l as [|[k v] r IH]; simpl; [reflexivity|]. now rewrite IH. Qed.
+Lemma tsizes_fix l :
+  (fix tsizes (l : list (sortdir * node)) : nat :=
+     match l with [] => 0 | (_, b) :: r => node_size b + tsizes r end)%nat l = tsizes l.
+Proof. unfold tsizes. induction l as [|[d e] r IH]; simpl; [reflexivity|]. now rewrite IH. Qed.
+
+Lemma node_size_pos n : (1 <= node_size n)%nat.
+Proof. destruct n; simpl; lia. Qed.
+
+(* ---- reading counted lists ---- *)
+Lemma read_n_rt {A} (rd : list string -> option (A * list string)) (tok : A -> list string) (l : list A) :
+  forall rest,
+  Forall (fun x => forall rest', rd (tok x ++ rest')%list = Some (x, rest')) l ->
+  read_n rd (List.length l) (List.concat (map tok l) ++ rest)%list = Some (l, rest).
+Proof.
+  induction l as [|x r IH]; intros rest Hall; [reflexivity|].
+  inversion Hall as [|? ? Hx Hr]; subst. cbn [List.length read_n map List.concat].
+  rewrite <- app_assoc, Hx. cbn [obind]. rewrite IH by exact Hr. reflexivity.
+Qed.
+
+Lemma read_counted_rt {A} (rd : list string -> option (A * list string)) (tok : A -> list string)
+      (l : list A) rest :
+  (List.length l <= List.length (List.concat (map tok l)))%nat ->
+  Forall (fun x => forall rest', rd (tok x ++ rest')%list = Some (x, rest')) l ->
+  read_counted rd (wL (List.length l) :: List.concat (map tok l) ++ rest)%list = Some (l, rest).
+Proof.
+  intros Hlen Hall. unfold read_counted. rewrite rL_wL.
+  - cbn [obind]. apply read_n_rt. exact Hall.
+  - rewrite app_length. lia.
+Qed.
+
+Lemma concat_length_ge {A} (tok : A -> list string) (sz : A -> nat) (l : list A) :
+  Forall (fun x => (sz x <= List.length (tok x))%nat) l ->
+  (list_sum (map sz l) <= List.length (List.concat (map tok l)))%nat.
+Proof.
+  induction 1 as [|x r Hx _ IH]; simpl; [lia|]. rewrite app_length. lia.
+Qed.
+
+Lemma length_le_sum {A} (sz : A -> nat) (l : list A) :
+  (forall x, 1 <= sz x)%nat -> (List.length l <= list_sum (map sz l))%nat.
+Proof. intros H. induction l as [|x r IH]; simpl; [lia|]. specialize (H x). lia. Qed.
+
+Lemma forallb_concat {A} (tok : A -> list string) (l : list A) :
+  Forall (fun x => forallb nospb (tok x) = true) l -> forallb nospb (List.concat (map tok l)) = true.
+Proof.
+  induction 1 as [|x r Hx _ IH]; simpl; [reflexivity|]. rewrite forallb_app, Hx, IH. reflexivity.
+Qed.
+
+Lemma read_S_rt s rest : read_S (wS s :: rest) = Some (s, rest).
+Proof. unfold read_S. rewrite rS_wS. reflexivity. Qed.
+Lemma read_B_rt b rest : read_B (wB b :: rest) = Some (b, rest).
+Proof. unfold read_B. rewrite rB_wB. reflexivity. Qed.
+
+Lemma names_rt (l : list string) rest :
+  read_counted read_S (wL (List.length l) :: map wS l ++ rest)%list = Some (l, rest).
+Proof.
+  replace (map wS l) with (List.concat (map (fun s => [wS s]) l)).
+  - apply read_counted_rt.
+    + clear. induction l; simpl; lia.
+    + apply Forall_forall. intros s _ rest'. apply read_S_rt.
+  - induction l as [|x r IH]; simpl; [reflexivity|]. now rewrite IH.
+Qed.
+
+(* ---- params ---- *)
+Fixpoint param_size (p : param) : nat :=
+  match p with
+  | Param _ _ None => 1
+  | Param _ _ (Some l) =>
+      S ((fix go (l : list param) : nat := match l with [] => 0 | x :: r => param_size x + go r end)%nat l)
+  end.
+
+Lemma params_tokens_concat l : params_tokens l = List.concat (map param_tokens l).
+Proof. induction l as [|x r IH]; simpl; [reflexivity|]. now rewrite IH. Qed.
+
+Definition psum (l : list param) : nat := list_sum (map param_size l).
+Lemma psum_fix l :
+  (fix go (l : list param) : nat := match l with [] => 0 | x :: r => param_size x + go r end)%nat l
+  = psum l.
+Proof. unfold psum. induction l as [|x r IH]; simpl; [reflexivity|]. now rewrite IH. Qed.
+Lemma ptokens_fix l :
+  (fix go (l : list param) : list string :=
+     match l with [] => [] | x :: r => (param_tokens x ++ go r)%list end) l
+  = List.concat (map param_tokens l).
+Proof. induction l as [|x r IH]; simpl; [reflexivity|]. now rewrite IH. Qed.
+
+Lemma in_sum_le {A} (sz : A -> nat) (l : list A) x : In x l -> (sz x <= list_sum (map sz l))%nat.
+Proof. induction l as [|y r IH]; simpl; [contradiction|]. intros [->|H]; [lia|]. apply IH in H. lia. Qed.
+
+Lemma ropt_wopt o : ropt (wopt o) = Some o. Proof. destruct o; reflexivity. Qed.
+Lemma nospb_wopt o : nospb (wopt o) = true. Proof. destruct o; reflexivity. Qed.
+
+Definition param_ok (p : param) : Prop :=
+  forallb nospb (param_tokens p) = true /\
+  (param_size p <= List.length (param_tokens p))%nat /\
+  forall fuel rest, (param_size p <= fuel)%nat ->
+    param_of_tokens fuel (param_tokens p ++ rest)%list = Some (p, rest).
+
+Lemma param_rt_aux : forall k p, (param_size p <= k)%nat -> param_ok p.
+Proof.
+  induction k as [|k IH]; intros [typ opt sub] Hk.
+  - destruct sub; simpl in Hk; lia.
+  - assert (Hty : Z_of_dec (string_of_Z (Z.of_N typ)) = Some (Z.of_N typ))
+      by (apply Z_of_dec_string_of_Z; lia).
+    assert (Hnt : nospb (string_of_Z (Z.of_N typ)) = true) by (apply nospb_string_of_Z; lia).
+    destruct sub as [l|].
+    + cbn [param_size] in Hk. rewrite psum_fix in Hk.
+      assert (Hall : Forall param_ok l).
+      { apply Forall_forall. intros x Hx. apply IH.
+        pose proof (in_sum_le param_size l x Hx). unfold psum in Hk. lia. }
+      assert (Hlen : (psum l <= List.length (List.concat (map param_tokens l)))%nat).
+      { apply concat_length_ge. eapply Forall_impl; [|exact Hall]. intros x (_ & H & _). exact H. }
+      unfold param_ok. cbn [param_tokens param_size]. rewrite ptokens_fix, psum_fix.
+      split; [|split].
+      * cbn [forallb]. rewrite Hnt, nospb_wopt, nospb_wL. cbn [nospb Ascii.eqb Bool.eqb negb andb].
+        apply forallb_concat. eapply Forall_impl; [|exact Hall]. intros x (H & _). exact H.
+      * cbn [List.length]. lia.
+      * intros fuel rest Hf. destruct fuel as [|f]; [lia|].
+        cbn [param_of_tokens app]. rewrite Hty. cbn [obind].
+        replace (Z.of_N typ <? 0) with false by lia. rewrite ropt_wopt. cbn [obind].
+        change (seqb "?1" "?0") with false. change (seqb "?1" "?1") with true. cbv iota.
+        rewrite read_counted_rt.
+        -- cbn [obind]. rewrite N2Z.id. reflexivity.
+        -- pose proof (length_le_sum param_size l). unfold psum in Hlen.
+           assert (forall x : param, (1 <= param_size x)%nat) by (intros [? ? [?|]]; simpl; lia). 
+           specialize (H H0). lia.
+        -- apply Forall_forall. intros x Hx rest'. rewrite Forall_forall in Hall.
+           destruct (Hall x Hx) as (_ & _ & Hc). apply Hc.
+           pose proof (in_sum_le param_size l x Hx). unfold psum in *. lia.
+    + unfold param_ok. cbn [param_tokens param_size]. split; [|split].
+      * cbn [forallb]. rewrite Hnt, nospb_wopt. reflexivity.
+      * cbn [List.length]. lia.
+      * intros fuel rest Hf. destruct fuel as [|f]; [lia|].
+        cbn [param_of_tokens app]. rewrite Hty. cbn [obind].
+        replace (Z.of_N typ <? 0) with false by lia. rewrite ropt_wopt. cbn [obind].
+        change (seqb "?0" "?0") with true. cbv iota. rewrite N2Z.id. reflexivity.
+Qed.
+
+Lemma param_rt p : param_ok p.
+Proof. apply (param_rt_aux (param_size p)). lia. Qed.
+
+Lemma params_rt (sig : list param) rest :
+  read_counted (param_of_tokens (List.length (wL (List.length sig) :: params_tokens sig ++ rest)%list))
+               (wL (List.length sig) :: params_tokens sig ++ rest)%list = Some (sig, rest).
+Proof.
+  rewrite params_tokens_concat.
+  assert (Hall : Forall param_ok sig) by (apply Forall_forall; intros; apply param_rt).
+  assert (Hlen : (psum sig <= List.length (List.concat (map param_tokens sig)))%nat).
+  { apply concat_length_ge. eapply Forall_impl; [|exact Hall]. intros x (_ & H & _). exact H. }
+  apply read_counted_rt.
+  - pose proof (length_le_sum param_size sig).
+    assert (forall x : param, (1 <= param_size x)%nat) by (intros [? ? [?|]]; simpl; lia).
+    specialize (H H0). unfold psum in Hlen. lia.
+  - apply Forall_forall. intros x Hx rest'.
+    destruct (param_rt x) as (_ & Hsz & Hc). apply Hc.
+    cbn [List.length]. rewrite app_length.
+    pose proof (in_sum_le param_size sig x Hx). unfold psum in Hlen. lia.
+Qed.
+
+(* ---- nodes ---- *)
+Definition numQ (n : node) : Prop := match n with NNumber x => rD (wD x) = Some x | _ => True end.
+(* every number literal of the tree survives the D<16 hex digits> encoding *)
+Definition num_ok : node -> Prop := all_nodes numQ.
+
+Definition node_ok (n : node) : Prop :=
+  forallb nospb (node_tokens n) = true /\
+  (node_size n <= List.length (node_tokens n))%nat /\
+  forall fuel rest, (node_size n <= fuel)%nat ->
+    node_of_tokens fuel (node_tokens n ++ rest)%list = Some (n, rest).
+
+Lemma list_ok_A l : Forall node_ok l -> forallb nospb (toks l) = true.
+Proof. intros H. apply forallb_concat. eapply Forall_impl; [|exact H]. intros x (Hx & _). exact Hx. Qed.
+Lemma list_ok_B l : Forall node_ok l -> (sizes l <= List.length (toks l))%nat.
+Proof. intros H. apply concat_length_ge. eapply Forall_impl; [|exact H]. intros x (_ & Hx & _). exact Hx. Qed.
+Lemma list_ok_C l f : Forall node_ok l -> (sizes l <= f)%nat ->
+  Forall (fun x => forall rest', node_of_tokens f (node_tokens x ++ rest')%list = Some (x, rest')) l.
+Proof.
+  intros H Hf. apply Forall_forall. intros x Hx rest'. rewrite Forall_forall in H.
+  destruct (H x Hx) as (_ & _ & Hc). apply Hc. pose proof (in_sum_le node_size l x Hx). unfold sizes in Hf. lia.
+Qed.
+Lemma list_len l : (List.length l <= sizes l)%nat.
+Proof. apply length_le_sum. apply node_size_pos. Qed.
+
+Definition pair_ok (kv : node * node) : Prop := node_ok (fst kv) /\ node_ok (snd kv).
+Lemma pairs_of_flat l : Forall node_ok (flat_map (fun kv => [fst kv; snd kv]) l) -> Forall pair_ok l.
+Proof.
+  induction l as [|[k v] r IH]; simpl; intros H; [constructor|].
+  inversion H as [|? ? H1 H2]; subst. inversion H2 as [|? ? H3 H4]; subst.
+  constructor; [split; assumption|auto].
+Qed.
+Lemma pairs_ok_A l : Forall pair_ok l -> forallb nospb (ptoks l) = true.
+Proof.
+  intros H. apply forallb_concat. eapply Forall_impl; [|exact H].
+  intros [k v] ((Hk & _) & (Hv & _)). simpl in *. rewrite forallb_app, Hk, Hv. reflexivity.
+Qed.
+Lemma pairs_ok_B l : Forall pair_ok l -> (psizes l <= List.length (ptoks l))%nat.
+Proof.
+  intros H. apply concat_length_ge. eapply Forall_impl; [|exact H].
+  intros [k v] ((_ & Hk & _) & (_ & Hv & _)). simpl in *. rewrite app_length. lia.
+Qed.
+Lemma pairs_ok_C l f : Forall pair_ok l -> (psizes l <= f)%nat ->
+  Forall (fun kv => forall rest',
+    obind (node_of_tokens f ((node_tokens (fst kv) ++ node_tokens (snd kv)) ++ rest')%list)
+      (fun '(k, t1) => obind (node_of_tokens f t1) (fun '(v, t2) => Some (k, v, t2)))
+    = Some (kv, rest')) l.
+Proof.
+  intros H Hf. apply Forall_forall. intros [k v] Hx rest'. rewrite Forall_forall in H.
+  destruct (H (k, v) Hx) as ((_ & _ & Hk) & (_ & _ & Hv)). simpl in *.
+  pose proof (in_sum_le (fun kv => node_size (fst kv) + node_size (snd kv))%nat l (k, v) Hx) as Hle.
+  unfold psizes in Hf. simpl in Hle.
+  rewrite <- app_assoc, Hk by lia. cbn [obind]. rewrite Hv by lia. reflexivity.
+Qed.
+Lemma pairs_len l : (List.length l <= psizes l)%nat.
+Proof. apply length_le_sum. intros [k v]. pose proof (node_size_pos k). simpl. lia. Qed.
+
+Lemma rdir_wdir d : rdir (wdir d) = Some d. Proof. destruct d; reflexivity. Qed.
+Lemma nospb_wdir d : nospb (wdir d) = true. Proof. destruct d; reflexivity. Qed.
+
+Definition term_ok (de : sortdir * node) : Prop := node_ok (snd de).
+Lemma terms_of_map l : Forall node_ok (map snd l) -> Forall term_ok l.
+Proof. induction l as [|[d e] r IH]; simpl; intros H; [constructor|]. inversion H; subst. constructor; auto. Qed.
+Lemma terms_ok_A l : Forall term_ok l -> forallb nospb (ttoks l) = true.
+Proof.
+  intros H. apply forallb_concat. eapply Forall_impl; [|exact H].
+  intros [d e] (He & _). simpl in *. rewrite nospb_wdir, He. reflexivity.
+Qed.
+Lemma terms_ok_B l : Forall term_ok l -> (tsizes l <= List.length (ttoks l))%nat.
+Proof.
+  intros H. apply concat_length_ge. eapply Forall_impl; [|exact H].
+  intros [d e] (_ & He & _). simpl in *. lia.
+Qed.
+Lemma terms_ok_C l f : Forall term_ok l -> (tsizes l <= f)%nat ->
+  Forall (fun de => forall rest',
+    match ((wdir (fst de) :: node_tokens (snd de)) ++ rest')%list with
+    | [] => None
+    | d :: t1 => obind (rdir d) (fun dir => obind (node_of_tokens f t1) (fun '(e, t2) => Some (dir, e, t2)))
+    end = Some (de, rest')) l.
+Proof.
+  intros H Hf. apply Forall_forall. intros [d e] Hx rest'. rewrite Forall_forall in H.
+  destruct (H (d, e) Hx) as (_ & _ & He). simpl in *.
+  pose proof (in_sum_le (fun de => node_size (snd de)) l (d, e) Hx) as Hle.
+  unfold tsizes in Hf. simpl in Hle.
+  rewrite rdir_wdir. cbn [obind]. rewrite He by lia. reflexivity.
+Qed.
+Lemma terms_len l : (List.length l <= tsizes l)%nat.
+Proof. apply length_le_sum. intros [d e]. apply node_size_pos. Qed.
+
+Lemma rnumop_w o : rnumop (wnumop o) = Some o. Proof. destruct o; reflexivity. Qed.
+Lemma rcmpop_w o : rcmpop (wcmpop o) = Some o. Proof. destruct o; reflexivity. Qed.
+Lemma rboolop_w o : rboolop (wboolop o) = Some o. Proof. destruct o; reflexivity. Qed.
+Lemma nospb_numop o : nospb (wnumop o) = true. Proof. destruct o; reflexivity. Qed.
+Lemma nospb_cmpop o : nospb (wcmpop o) = true. Proof. destruct o; reflexivity. Qed.
+Lemma nospb_boolop o : nospb (wboolop o) = true. Proof. destruct o; reflexivity. Qed.
+
+Lemma forallb_map_wS l : forallb nospb (map wS l) = true.
+Proof. induction l as [|x r IH]; simpl; [reflexivity|]. rewrite nospb_hex, IH. reflexivity. Qed.
+
+Lemma params_ok_A sig : forallb nospb (params_tokens sig) = true.
+Proof.
+  rewrite params_tokens_concat. apply forallb_concat. apply Forall_forall. intros x _.
+  destruct (param_rt x) as (H & _). exact H.
+Qed.
+
+Ltac eval_seqb :=
+  repeat match goal with
+         | |- context [seqb ?a ?b] =>
+             let v := eval vm_compute in (seqb a b) in
+             change (seqb a b) with v
+         end;
+  cbv iota.
+
+Ltac inv_forall' :=
+  repeat match goal with
+         | H : Forall _ (_ :: _) |- _ => inversion H; clear H; subst
+         | H : Forall _ [] |- _ => clear H
+         end.
+
+
+Ltac solveA :=
+  cbn [forallb]; rewrite ?forallb_app; cbn [forallb];
+  repeat first
+    [ rewrite nospb_wS | rewrite nospb_wB | rewrite nospb_wL | rewrite nospb_wD
+    | rewrite nospb_numop | rewrite nospb_cmpop | rewrite nospb_boolop
+    | match goal with H : forallb nospb _ = true |- _ => rewrite H end ];
+  reflexivity.
+
+Ltac solveB := cbn [List.length]; rewrite ?app_length; cbn [List.length]; lia.
+
+Ltac startC :=
+  let f := fresh "f" in let rest := fresh "rest" in let Hf := fresh "Hf" in
+  intros [|f] rest Hf; [lia|]; cbn [node_of_tokens app]; eval_seqb; rewrite <- ?app_assoc; cbn [app].
+
+Ltac stepC :=
+  repeat (first
+    [ match goal with
+      | HC : forall fuel rest, (node_size ?c <= fuel)%nat -> node_of_tokens fuel (node_tokens ?c ++ rest)%list = _
+        |- context [node_of_tokens ?f (node_tokens ?c ++ ?r)%list] => rewrite (HC f r) by lia
+      end
+    | rewrite read_S_rt | rewrite read_B_rt | rewrite rnumop_w | rewrite rcmpop_w | rewrite rboolop_w ];
+    cbn [obind]).
+
+Theorem node_rt : forall n, num_ok n -> node_ok n.
+Proof.
+  apply (node_children_ind (fun n => num_ok n -> node_ok n)).
+  intros n IH Hnum. apply all_nodes_children in Hnum as [Hq Hnc].
+  assert (Hch : Forall node_ok (children n)).
+  { rewrite Forall_forall in *. intros x Hx. apply IH; [exact Hx|apply Hnc; exact Hx]. }
+  clear IH Hnc.
+  destruct n; cbn [children] in Hch; unfold node_ok; cbn [node_tokens node_size];
+    rewrite ?toks_fix, ?ptoks_fix, ?ttoks_fix, ?sizes_fix, ?psizes_fix, ?tsizes_fix.
+  all: inv_forall'.
+  all: repeat match goal with H : node_ok _ |- _ =>
+         let HA := fresh "HA" in let HB := fresh "HB" in let HC := fresh "HC" in
+         destruct H as (HA & HB & HC) end.
+  - (* NString *) split; [|split]; [solveA|solveB|]. startC. stepC. reflexivity.
+  - (* NNumber *) split; [|split]; [solveA|solveB|]. startC. unfold numQ in Hq. rewrite Hq. reflexivity.
+  - (* NBoolean *) split; [|split]; [solveA|solveB|]. startC. stepC. reflexivity.
+  - (* NNull *) split; [|split]; [solveA|solveB|]. startC. reflexivity.
+  - (* NRegex *) split; [|split]; [solveA|solveB|]. startC. stepC. reflexivity.
+  - (* NVariable *) split; [|split]; [solveA|solveB|]. startC. stepC. reflexivity.
+  - (* NName *) split; [|split]; [solveA|solveB|]. startC. stepC. reflexivity.
+  - (* NPath *)
+    pose proof (list_ok_A _ Hch) as LA. pose proof (list_ok_B _ Hch) as LB. pose proof (list_len steps) as LL.
+    split; [|split]; [solveA|solveB|]. startC.
+    unfold toks in *. rewrite read_counted_rt; [|lia|apply list_ok_C; auto; lia].
+    cbn [obind app]. stepC. reflexivity.
+  - (* NNegation *) split; [|split]; [solveA|solveB|]. startC. stepC. reflexivity.
+  - (* NRange *) split; [|split]; [solveA|solveB|]. startC. stepC. reflexivity.
+  - (* NArray *)
+    pose proof (list_ok_A _ Hch) as LA. pose proof (list_ok_B _ Hch) as LB. pose proof (list_len items) as LL.
+    split; [|split]; [solveA|solveB|]. startC.
+    unfold toks in *. rewrite read_counted_rt; [|lia|apply list_ok_C; auto; lia].
+    reflexivity.
+  - (* NObject *)
+    apply pairs_of_flat in Hch.
+    pose proof (pairs_ok_A _ Hch) as LA. pose proof (pairs_ok_B _ Hch) as LB. pose proof (pairs_len pairs) as LL.
+    split; [|split]; [solveA|solveB|]. startC.
+    unfold ptoks in *. rewrite read_counted_rt; [|lia|apply pairs_ok_C; auto; lia].
+    reflexivity.
+  - (* NBlock *)
+    pose proof (list_ok_A _ Hch) as LA. pose proof (list_ok_B _ Hch) as LB. pose proof (list_len exprs) as LL.
+    split; [|split]; [solveA|solveB|]. startC.
+    unfold toks in *. rewrite read_counted_rt; [|lia|apply list_ok_C; auto; lia].
+    reflexivity.
+  - (* NWildcard *) split; [|split]; [solveA|solveB|]. startC. reflexivity.
+  - (* NDescendent *) split; [|split]; [solveA|solveB|]. startC. reflexivity.
+  - (* NTransform *)
+    destruct deletes as [d|]; inv_forall';
+      repeat match goal with H : node_ok _ |- _ =>
+         let HA := fresh "HA" in let HB := fresh "HB" in let HC := fresh "HC" in
+         destruct H as (HA & HB & HC) end;
+      (split; [|split]; [solveA|solveB|]); startC; stepC; eval_seqb; stepC; reflexivity.
+  - (* NLambda *)
+    split; [|split]; [rewrite ?forallb_app; cbn [forallb]; rewrite ?forallb_app, forallb_map_wS; solveA|
+                      cbn [List.length]; rewrite ?app_length; cbn [List.length]; lia|].
+    startC. rewrite names_rt. cbn [obind]. stepC. reflexivity.
+  - (* NTypedLambda *)
+    split; [|split]; [cbn [forallb]; rewrite ?forallb_app; cbn [forallb]; rewrite ?forallb_app, forallb_map_wS, params_ok_A; solveA|
+                      cbn [List.length]; rewrite ?app_length; cbn [List.length]; lia|].
+    startC. rewrite names_rt. cbn [obind]. stepC. rewrite params_rt. reflexivity.
+  - (* NPartial *)
+    match goal with H : Forall node_ok args |- _ =>
+      pose proof (list_ok_A _ H) as LA; pose proof (list_ok_B _ H) as LB; pose proof (list_len args) as LL;
+      rename H into Hl end.
+    split; [|split]; [solveA|solveB|]. startC. stepC.
+    unfold toks in *. rewrite read_counted_rt; [|lia|apply list_ok_C; auto; lia].
+    reflexivity.
+  - (* NPlaceholder *) split; [|split]; [solveA|solveB|]. startC. reflexivity.
+  - (* NCall *)
+    match goal with H : Forall node_ok args |- _ =>
+      pose proof (list_ok_A _ H) as LA; pose proof (list_ok_B _ H) as LB; pose proof (list_len args) as LL;
+      rename H into Hl end.
+    split; [|split]; [solveA|solveB|]. startC. stepC.
+    unfold toks in *. rewrite read_counted_rt; [|lia|apply list_ok_C; auto; lia].
+    reflexivity.
+  - (* NPredicate *)
+    match goal with H : Forall node_ok filters |- _ =>
+      pose proof (list_ok_A _ H) as LA; pose proof (list_ok_B _ H) as LB; pose proof (list_len filters) as LL;
+      rename H into Hl end.
+    split; [|split]; [solveA|solveB|]. startC. stepC.
+    unfold toks in *. rewrite read_counted_rt; [|lia|apply list_ok_C; auto; lia].
+    reflexivity.
+  - (* NGroup *)
+    match goal with H : Forall node_ok (flat_map _ pairs) |- _ => apply pairs_of_flat in H;
+      pose proof (pairs_ok_A _ H) as LA; pose proof (pairs_ok_B _ H) as LB; pose proof (pairs_len pairs) as LL;
+      rename H into Hl end.
+    split; [|split]; [solveA|solveB|]. startC. stepC.
+    unfold ptoks in *. rewrite read_counted_rt; [|lia|apply pairs_ok_C; auto; lia].
+    reflexivity.
+  - (* NConditional *)
+    destruct els as [d|]; inv_forall';
+      repeat match goal with H : node_ok _ |- _ =>
+         let HA := fresh "HA" in let HB := fresh "HB" in let HC := fresh "HC" in
+         destruct H as (HA & HB & HC) end;
+      (split; [|split]; [solveA|solveB|]); startC; stepC; eval_seqb; stepC; reflexivity.
+  - (* NAssignment *) split; [|split]; [solveA|solveB|]. startC. stepC. reflexivity.
+  - (* NNumeric *) split; [|split]; [solveA|solveB|]. startC. stepC. reflexivity.
+  - (* NComparison *) split; [|split]; [solveA|solveB|]. startC. stepC. reflexivity.
+  - (* NBoolOp *) split; [|split]; [solveA|solveB|]. startC. stepC. reflexivity.
+  - (* NConcat *) split; [|split]; [solveA|solveB|]. startC. stepC. reflexivity.
+  - (* NSort *)
+    match goal with H : Forall node_ok (map snd terms) |- _ => apply terms_of_map in H;
+      pose proof (terms_ok_A _ H) as LA; pose proof (terms_ok_B _ H) as LB; pose proof (terms_len terms) as LL;
+      rename H into Hl end.
+    split; [|split]; [solveA|solveB|]. startC. stepC.
+    unfold ttoks in *. rewrite read_counted_rt; [|lia|apply terms_ok_C; auto; lia].
+    reflexivity.
+  - (* NApply *) split; [|split]; [solveA|solveB|]. startC. stepC. reflexivity.
+  - (* NDot *) split; [|split]; [solveA|solveB|]. startC. stepC. reflexivity.
+  - (* NSingletonArray *) split; [|split]; [solveA|solveB|]. startC. stepC. reflexivity.
+  - (* NPred *) split; [|split]; [solveA|solveB|]. startC. stepC. reflexivity.
+Qed.
+
+(* AstWire: reading back what was printed gives the same tree, for every tree whose number
+   literals survive the D<hex> encoding ([num_ok]; strings and names are arbitrary byte
+   strings). *)
+Theorem node_of_wire_to_wire n : num_ok n -> node_of_wire (node_to_wire n) = Some n.
+Proof.
+  intros Hn. destruct (node_rt n Hn) as (HA & HB & HC).
+  unfold node_of_wire, node_to_wire.
+  assert (Hne : node_tokens n <> []).
+  { pose proof (node_size_pos n). destruct (node_tokens n); [simpl in HB; lia|discriminate]. }
+  rewrite ssplit_sjoin by assumption.
+  rewrite <- (app_nil_r (node_tokens n)) at 2.
+  rewrite HC by lia. reflexivity.
+Qed.
+
+Example node_of_wire_to_wire_ex :
+  let n := NPath [NName "a b" false; NPredicate (NName "" true) [NNumber (f_of_Z 1); NString " "]] true in
+  num_ok n /\ node_to_wire n = "Path L2 Name S612062 F Pred Name S T L2 Num D3ff0000000000000 Str S20 T".
+Proof. split; [vm_compute; tauto|vm_compute; reflexivity]. Qed.
+
+Print Assumptions node_of_wire_to_wire.
